@@ -65,56 +65,51 @@ def tag_order_rules(prog, res: Result):
     res.samples.append({"iso_4217": {"entries": len(entries), "currencies": len(by_code),
                                      "example": {"JPY": by_code.get("JPY", [None])[0], "BHD": by_code.get("BHD", [None])[0]}}})
 
-    # code side: positional unpack in currencies.py
-    m = prog.modules["quantity.money.currencies"]
-    unpack = None
-    store = None
-    for n in ast.walk(m.tree):
-        if isinstance(n, ast.Assign) and isinstance(n.targets[0], ast.Tuple) and len(n.targets[0].elts) == 5 \
-                and all(isinstance(e, ast.Name) for e in n.targets[0].elts) and unpack is None:
-            unpack = [e.id for e in n.targets[0].elts]
-        if isinstance(n, ast.Assign) and isinstance(n.targets[0], ast.Subscript) \
-                and isinstance(n.value, ast.Tuple) and len(n.value.elts) == 5:
-            store = n
-    if unpack is None or store is None:
-        raise AnalysisError("anchor vanished: positional unpack / record store in money/currencies.py")
-    role = {unpack[0]: "country", unpack[1]: "name", unpack[2]: "code", unpack[3]: "number", unpack[4]: "minor"}
-
-    def role_of(e):
-        names = [x.id for x in ast.walk(e) if isinstance(x, ast.Name) and x.id in role]
-        return role[names[0]] if len(names) == 1 else None
-    rec_roles = [role_of(e) for e in store.value.elts]
-    key_role = role_of(store.targets[0].slice)
-    res.ob("R08.2", "money/currencies.py", "record layout (code, number, name, minor, countries) keyed by code",
-           rec_roles == ["code", "number", "name", "minor", "country"] and key_role == "code",
-           f"record roles {rec_roles}, key role {key_role}", sig="currency record layout changed")
-    ints = [src_of(e).startswith("int(") for e in store.value.elts]
-    res.ob("R08.2", "money/currencies.py", "minor units stored as int", ints[3], src_of(store.value.elts[3]),
-           sig="minor units not converted to int", nontrivial=False)
-    # register_currency: unpack of the record and call of new_unit
-    rc = prog.method("MoneyMeta", "register_currency")
-    un2 = None
-    call = None
-    for n in ast.walk(rc.node):
-        if isinstance(n, ast.Assign) and isinstance(n.targets[0], ast.Tuple) and len(n.targets[0].elts) == 5 \
-                and isinstance(n.value, ast.Call) and src_of(n.value.func).endswith("get_currency_info"):
-            un2 = [e.id if isinstance(e, ast.Name) else None for e in n.targets[0].elts]
-        if isinstance(n, ast.Call) and isinstance(n.func, ast.Attribute) and n.func.attr == "new_unit":
-            call = n
-    if un2 is None or call is None:
-        raise AnalysisError("anchor vanished: record unpack / new_unit call in MoneyMeta.register_currency")
-    role2 = dict(zip(un2, ["code", "number", "name", "minor", "country"]))
-    nu = prog.method("MoneyMeta", "new_unit")
-    params = [p.arg for p in nu.node.args.args][1:]
-    passed = {}
-    for i, a in enumerate(call.args):
-        passed[params[i]] = role2.get(a.id) if isinstance(a, ast.Name) else None
-    for k in call.keywords:
-        passed[k.arg] = role2.get(k.value.id) if isinstance(k.value, ast.Name) else None
-    want = {"symbol": "code", "name": "name", "minor_unit": "minor"}
-    ok = all(passed.get(k) == v for k, v in want.items()) and "smallest_fraction" not in passed
-    res.ob("R08.2", "MoneyMeta.register_currency", "record fields reach symbol / name / minor_unit", ok,
-           f"new_unit receives {passed}", sig="currency record fields passed in the wrong positions")
+    # code side, evaluated: Engine D folds money/currencies.py over the real table (the checker's own XML reader
+    # stands in for ElementTree) and the resulting dictionary is compared, currency by currency, with the
+    # checker's own reading of the table: record = (code, numeric code, name, minor units, countries), first
+    # entry of a code wins, later entries only add their country
+    from ..catalogue import ModuleFold
+    fold = ModuleFold(prog, "quantity.money.currencies")
+    gi = prog.function("quantity.money.currencies", "get_currency_info")
+    res.functions.add(gi.qualname)
+    want = {}
+    for e in entries:
+        kids = list(e)
+        if len(kids) != 5:
+            continue
+        texts = [k.text or "" for k in kids]
+        country, name, code, num, minor = texts
+        if not (num.isdigit() and minor.isdigit()):
+            continue
+        if code in want:
+            want[code][4].append(country)
+        else:
+            want[code] = (code, int(num), name, int(minor), [country])
+    bad, checked = [], 0
+    for code, rec in want.items():
+        kind, got = fold.apply(gi.name, code)
+        checked += 1
+        ok = kind == "return" and isinstance(got, (tuple, list)) and len(got) == 5 and \
+            [fold._key(x) if not isinstance(x, list) else list(x) for x in got] == list(rec) and \
+            all(isinstance(fold._key(got[i]), int) and not isinstance(got[i], bool) for i in (1, 3))
+        if not ok:
+            bad.append(f"{code}: parser gives {got!r}, table says {rec!r}")
+    res.ob("R08.2", "money/currencies.py", "record layout (code, number, name, minor, countries) keyed by code", not bad,
+           f"{len(bad)} of {checked} currencies differ, e.g. {bad[:2]}", sig="currency record layout changed",
+           evaluations=checked)
+    unknown = []
+    for code in ("ZZ~", "", "eur", "XXXX"):
+        if code in want:
+            continue
+        kind, got = fold.apply(gi.name, code)
+        if not (kind == "raise" and got == "ValueError"):
+            unknown.append(f"{code!r}: {kind} {got!r}")
+    res.ob("R08.3", gi.qualname, "unknown code raises ValueError", not unknown, str(unknown),
+           sig="unknown ISO code not rejected")
+    res.extra["parsed_currencies_compared"] = checked
+    if checked < 150:
+        raise AnalysisError(f"only {checked} currencies compared")
 
 
 def run(prog, tier) -> Result:
@@ -266,16 +261,32 @@ def run(prog, tier) -> Result:
             if persistent_writes(st):
                 return ("rejected registration after a write", exc_sig(o))
             return None if o.exc.name in ("ValueError", "AssertionError") else (exc_sig(o), "")
+        # a new currency: the record's fields (code, number, name, minor units, countries) reach the unit as
+        # symbol = code, name = name, smallest fraction = 10 ** -minor units
+        v = o.value
+        if not isinstance(v, ObjV) or v.ci is None or v.ci.name != "Currency":
+            return ("registration does not return a Currency", repr(v))
+        sym, nm, sf = v.fields.get("_symbol"), v.fields.get("_name"), v.fields.get("_smallest_fraction")
+        recs = [e[2] for e in st.effects if e[0] == "symlookup" and not getattr(e[1], "unit_values", False)
+                and getattr(e[1], "owner", None) is None and e[3]]
+        field = lambda x: (x.tag or "").rsplit(".", 1)[-1] if isinstance(x, StrV) else None
+        if field(sym) != "0" or field(nm) != "2":
+            return ("currency record fields passed in the wrong positions",
+                    f"symbol from record field {field(sym)}, name from field {field(nm)}; record = (code, number, name, "
+                    f"minor units, countries)")
+        if not isinstance(sf, Num):
+            return ("smallest fraction not stored", repr(sf))
+        minor = [a_ for a_ in st.norm(sf.rf).atoms() if a_[0] == "rec"]
+        want_sf = RF.const(10).pow_sym((0, -1))
+        exp_sym = getattr(st, "exp_symbol", None)
+        if not (exp_sym is not None and exp_sym[0] == "rec" and exp_sym[-1] == 3 and st.norm(sf.rf).equals(want_sf)):
+            return ("smallest fraction is not ten to the minus minor units of the record",
+                    f"stored {st.norm(sf.rf)!r} with exponent symbol {exp_sym!r}")
         return None
-    cr.run("R08.3", rc, "register_currency", rc_setup, judge_rc)
-    gi = prog.function("quantity.money.currencies", "get_currency_info")
-    res.functions.add(gi.qualname)
-    raises = [src_of(n.exc) for n in ast.walk(gi.node) if isinstance(n, ast.Raise) and n.exc is not None]
-    res.ob("R08.3", gi.qualname, "unknown code raises ValueError", any(r.startswith("ValueError") for r in raises),
-           str(raises), sig="unknown ISO code not rejected", nontrivial=False)
+    cr.run("R08.3", rc, "register_currency", rc_setup, judge_rc, min_paths=3)
 
     res.require("R08.1", 18)
-    res.require("R08.2", 5)
+    res.require("R08.2", 3)
     res.require("R08.2b", 2)
     res.require("R08.3", 2)
     res.require("R08.4", 3)
